@@ -296,32 +296,9 @@ func runC02(env *Env) {
 // transpositions the patch leads to; returns "" when it holds, else the name of a violated clause.  (dirOrder holds
 // for every container tlc.Walk produces: parents are listed first.)
 func c02NotBenign(oldC, newC *tlc.Container, patch []byte) string {
-	newFiles, newDirs := map[string]bool{}, map[string]bool{}
-	for _, f := range newC.Files {
-		newFiles[f.Path] = true
-	}
+	newDirs := map[string]bool{}
 	for _, d := range newC.Dirs {
 		newDirs[d.Path] = true
-	}
-	var oldPaths []string
-	for _, f := range oldC.Files {
-		oldPaths = append(oldPaths, f.Path)
-	}
-	for _, l := range oldC.Symlinks {
-		oldPaths = append(oldPaths, l.Path)
-	}
-	for _, d := range oldC.Dirs {
-		oldPaths = append(oldPaths, d.Path)
-	}
-	// emptyDir: an old directory that is a file of the new build has nothing below it in the old build
-	for _, d := range oldC.Dirs {
-		if newFiles[d.Path] {
-			for _, q := range oldPaths {
-				if strings.HasPrefix(q, d.Path+"/") {
-					return "emptyDir"
-				}
-			}
-		}
 	}
 	// sources: the old path of a transposed file is not a directory of the new build.  A series is a transposition
 	// when its first op is a block range from block 0 of an equally sized old file spanning all of its blocks
